@@ -416,12 +416,13 @@ func (lb *LoadBalancer) processHealthCheckResponse(backend *Backend, resp *http.
 	}
 	wasUnhealthy := !backend.IsHealthy
 	backend.IsHealthy = true
-	backend.Mutex.Unlock()
 
-	// Update metrics to reflect healthy status
+	// Update metrics to reflect healthy status (before releasing the lock, so that the
+	// update cannot overtake a concurrent ejection)
 	if lb.metricsCollector != nil {
 		lb.metricsCollector.UpdateBackendHealth(backend.Name, true)
 	}
+	backend.Mutex.Unlock()
 
 	if wasUnhealthy {
 		logging.L().Info().Str("backend", backend.Name).Msg("backend marked healthy via active check")
@@ -561,12 +562,15 @@ func (lb *LoadBalancer) IsBackendHealthy(backend *Backend) bool {
 		// Double-check after acquiring write lock to prevent race condition
 		if !backend.IsHealthy && time.Now().After(backend.UnhealthyUntil) {
 			backend.IsHealthy = true
-			backend.Mutex.Unlock()
 
-			// Update metrics to reflect healthy status
+			// Update metrics to reflect healthy status. This happens before the lock is
+			// released (as in MarkBackendUnhealthy): published after it, the update could
+			// overtake a concurrent ejection and leave the metrics reporting an ejected
+			// backend as healthy.
 			if lb.metricsCollector != nil {
 				lb.metricsCollector.UpdateBackendHealth(backend.Name, true)
 			}
+			backend.Mutex.Unlock()
 
 			logging.L().Info().Str("backend", backend.Name).Msg("backend marked healthy")
 			return true
